@@ -7,6 +7,7 @@
 #include <memory>
 #include <optional>
 #include <regex>
+#include <stdexcept>
 #include <string>
 #include <thread>
 #include <unordered_map>
@@ -41,11 +42,12 @@ const RoutingKey &pattern(int i) { return g_keys->pats[i]; }
 const char *key_name(int i) { static const char *n[] = {"a/b", "a/c", "d"}; return n[i]; }
 const char *pat_name(int i) { static const char *n[] = {"a/b", "a/*", "*/*", "*", "(a|d)/c"}; return n[i]; }
 
-struct Op { char kind; int arg; };     // N notify(pattern) S subscribe(key) U unsubscribe(initial subscription) H shrink(pattern) E exists(pattern) D depth
+struct Op { char kind; int arg; };     // N notify(pattern) T notify(pattern), an exception thrown by an observer is caught by the caller S subscribe(key) U unsubscribe(initial subscription) H shrink(pattern) E exists(pattern) D depth
 struct Result { std::vector<int> called; long value = -1; bool operator==(const Result &o) const { return called == o.called && value == o.value; } };
 
 struct Spec {
     std::vector<int> initial;                   // keys of the initial subscriptions (observer ids 100, 101, ...)
+    int thrower = -1;                           // key with one more initial subscription (observer id 99) whose callback throws std::runtime_error
     std::vector<int> dead;                      // keys that were subscribed and unsubscribed again before the threads start (dead nodes for shrink)
     std::vector<std::vector<Op>> threads;       // per thread: its operations in program order
     bool check = true;
@@ -54,6 +56,7 @@ struct Spec {
 std::string op_str(const Op &o) {
     switch (o.kind) {
     case 'N': return std::string("notify(") + pat_name(o.arg) + ")";
+    case 'T': return std::string("try{notify(") + pat_name(o.arg) + ")}catch";
     case 'S': return std::string("subscribe(") + key_name(o.arg) + ")";
     case 'U': return "unsubscribe(initial#" + std::to_string(o.arg) + ")";
     case 'H': return std::string("shrink(") + pat_name(o.arg) + ")";
@@ -69,6 +72,8 @@ struct RefRun {
     std::vector<Subscription<>> initial;
     std::vector<Subscription<>> made;
     std::vector<int> *sink = nullptr;
+    std::optional<Subscription<>> thrower;
+    void subscribe_thrower(int k) { thrower.emplace(router.subscribe(key(k), [this] { if (sink) sink->push_back(99); throw std::runtime_error("observer 99"); })); }
     void subscribe(int k, int obs, bool is_initial) {
         auto s = router.subscribe(key(k), [this, obs] { if (sink) sink->push_back(obs); });
         (is_initial ? initial : made).push_back(std::move(s));
@@ -77,6 +82,7 @@ struct RefRun {
         Result r;
         switch (o.kind) {
         case 'N': sink = &r.called; r.value = (long)router.notify(pattern(o.arg)); sink = nullptr; break;
+        case 'T': sink = &r.called; try { r.value = (long)router.notify(pattern(o.arg)); } catch (const std::runtime_error &) { r.value = -2; } sink = nullptr; break;
         case 'S': subscribe(o.arg, opid, false); break;
         case 'U': initial[o.arg].unsubscribe(); break;
         case 'H': router.shrink(pattern(o.arg)); break;
@@ -103,6 +109,7 @@ bool linearizable(const Spec &s, std::vector<Flat> &ops, std::string &why) {
         if (!ok) continue;
         RefRun ref;
         for (size_t i = 0; i < s.initial.size(); i++) ref.subscribe(s.initial[i], 100 + (int)i, true);
+        if (s.thrower >= 0) ref.subscribe_thrower(s.thrower);
         for (int k : s.dead) { auto sub = ref.router.subscribe(key(k), [] {}); sub.unsubscribe(); }
         for (int i = 0; i < n && ok; i++) {
             Result r = ref.apply(ops[perm[i]].op, perm[i]);
@@ -113,7 +120,7 @@ bool linearizable(const Spec &s, std::vector<Flat> &ops, std::string &why) {
     why = "no sequential order of the operations that respects their call/return order reproduces the observed results:";
     for (int i = 0; i < n; i++) {
         why += " [t" + std::to_string(ops[i].thread) + " " + op_str(ops[i].op) + " ->";
-        if (ops[i].op.kind == 'N') { why += " called{"; for (int c : ops[i].res.called) why += std::to_string(c) + " "; why += "} ret=" + std::to_string(ops[i].res.value); }
+        if (ops[i].op.kind == 'N' || ops[i].op.kind == 'T') { why += " called{"; for (int c : ops[i].res.called) why += std::to_string(c) + " "; why += "} ret=" + std::to_string(ops[i].res.value); }
         else if (ops[i].res.value >= 0) why += " " + std::to_string(ops[i].res.value);
         why += "]";
     }
@@ -128,6 +135,8 @@ void run(const Spec &s, int prog_id) {
     std::vector<USubscription> initial;
     auto cb = [](int obs) { return [obs] { vs_event(EV_CB_ENTER, obs, 0); vs_point(7); vs_event(EV_CB_EXIT, obs, 0); }; };
     for (size_t i = 0; i < s.initial.size(); i++) initial.push_back(router->subscribe(key(s.initial[i]), cb(100 + (int)i)));
+    std::optional<USubscription> thrower;
+    if (s.thrower >= 0) thrower.emplace(router->subscribe(key(s.thrower), [] { vs_event(EV_CB_ENTER, 99, 0); vs_point(7); vs_event(EV_CB_EXIT, 99, 0); throw std::runtime_error("observer 99"); }));
     for (int k : s.dead) { USubscription sub = router->subscribe(key(k), [] {}); sub->unsubscribe(); }
 
     std::vector<Flat> ops;
@@ -144,6 +153,7 @@ void run(const Spec &s, int prog_id) {
                 vs_event(EV_OP_CALL, id, 0);
                 switch (o.kind) {
                 case 'N': values[id] = (long)router->notify(pattern(o.arg)); break;
+                case 'T': try { values[id] = (long)router->notify(pattern(o.arg)); } catch (const std::runtime_error &) { values[id] = -2; } break;
                 case 'S': made[id].emplace(router->subscribe(key(o.arg), cb(id))); break;
                 case 'U': initial[o.arg]->unsubscribe(); break;
                 case 'H': router->shrink(pattern(o.arg)); break;
@@ -167,13 +177,23 @@ void run(const Spec &s, int prog_id) {
         if (e.kind == EV_OP_RET) { ops[e.a].ret = i; current[e.tid] = -1; if (ops[e.a].op.kind == 'U') unsub_ret[ops[e.a].op.arg] = i; }
         if (e.kind == EV_CB_ENTER) {
             int op = current[e.tid];
-            if (op < 0 || ops[op].op.kind != 'N') vs_fail("observer %d was invoked outside any notify call of its thread", e.a);
+            if (op < 0 || (ops[op].op.kind != 'N' && ops[op].op.kind != 'T')) vs_fail("observer %d was invoked outside any notify call of its thread", e.a);
             ops[op].res.called.push_back(e.a);
             if (e.a >= 100 && unsub_ret[e.a - 100] >= 0)
                 vs_fail("observer %d was invoked after unsubscribe() of its subscription had returned", e.a);
         }
     }
-    for (size_t i = 0; i < ops.size(); i++) if (ops[i].op.kind == 'N' || ops[i].op.kind == 'E' || ops[i].op.kind == 'D') ops[i].res.value = values[i];
+    for (size_t i = 0; i < ops.size(); i++) if (ops[i].op.kind == 'N' || ops[i].op.kind == 'T' || ops[i].op.kind == 'E' || ops[i].op.kind == 'D') ops[i].res.value = values[i];
+    // an unsubscribe() that returns while a callback of that very observer is still running took effect in the middle of a delivery (the observer is destroyed under its own callback)
+    {
+        std::vector<int> running_since(256, -1);
+        for (int i = 0; i < n; i++) {
+            const vs_ev &e = ev[i];
+            if (e.kind == EV_CB_ENTER && e.a >= 0 && e.a < 256) running_since[e.a] = i;
+            if (e.kind == EV_CB_EXIT && e.a >= 0 && e.a < 256) running_since[e.a] = -1;
+            if (e.kind == EV_OP_RET && ops[e.a].op.kind == 'U') { int obs = 100 + ops[e.a].op.arg; if (running_since[obs] >= 0) vs_fail("unsubscribe() of observer %d returned while a callback of that observer was still running (delivery in progress)", obs); }
+        }
+    }
 
     std::string sig = std::to_string(prog_id) + "|";
     for (auto &o : ops) { sig += std::to_string(o.res.value) + ":"; for (int c : o.res.called) sig += std::to_string(c) + ","; sig += ";"; }
@@ -202,10 +222,11 @@ void add(VSuite &suite, Spec s, int bound, const std::string &) {
     std::string nm, d = "router pre-populated with observers on [";
     for (size_t i = 0; i < s.initial.size(); i++) d += std::string(i ? "," : "") + key_name(s.initial[i]);
     d += "]";
+    if (s.thrower >= 0) d += std::string(", a throwing observer on ") + key_name(s.thrower);
     if (!s.dead.empty()) { d += ", dead keys ["; for (size_t i = 0; i < s.dead.size(); i++) d += std::string(i ? "," : "") + key_name(s.dead[i]); d += "]"; }
     d += "; threads:";
     for (auto &t : s.threads) { nm += nm.empty() ? "" : "|"; d += " {"; for (size_t j = 0; j < t.size(); j++) { nm += (j ? ";" : "") + std::string(1, t[j].kind) + std::to_string(t[j].arg); d += (j ? "; " : "") + op_str(t[j]); } d += "}"; }
-    p.name = "i" + std::to_string(s.initial.size()) + (s.dead.empty() ? "" : "d" + std::to_string(s.dead.size())) + ":" + nm;
+    p.name = "i" + std::to_string(s.initial.size()) + (s.dead.empty() ? "" : "d" + std::to_string(s.dead.size())) + (s.thrower >= 0 ? "t" : "") + ":" + nm;
     p.describe = d + "; callbacks contain a scheduling point and never call the router";
     p.bound = bound;
     int id = g_prog_counter++;
@@ -218,6 +239,7 @@ bool provider(const std::string &prop, const std::string &tier, const std::strin
     bool thorough = tier == "thorough";
     suite.event_name = ev_name;
     auto N = [](int a) { return Op{'N', a}; }; auto S = [](int a) { return Op{'S', a}; }; auto U = [](int a) { return Op{'U', a}; };
+    auto Tn = [](int a) { return Op{'T', a}; };
     auto H = [](int a) { return Op{'H', a}; }; auto E = [](int a) { return Op{'E', a}; }; auto D = [] { return Op{'D', 0}; };
     typedef std::vector<std::vector<Op>> T;
     if (prop == "C15") {
@@ -230,6 +252,7 @@ bool provider(const std::string &prop, const std::string &tier, const std::strin
         { Spec s; s.check = false; s.initial = {0, 0, 0}; s.threads = T{{U(0)}, {U(1)}, {S(0)}}; add(suite, s, b, flavour); }
         { Spec s; s.check = false; s.initial = {0, 0, 0}; s.threads = T{{U(1)}, {U(0)}, {N(0)}}; add(suite, s, b, flavour); }
         { Spec s; s.check = false; s.initial = {0, 0}; s.threads = T{{S(0), U(0)}, {U(1), S(0)}}; add(suite, s, b, flavour); }
+        { Spec s; s.check = false; s.initial = {0}; s.thrower = 2; s.threads = T{{Tn(3), U(0)}, {N(1)}, {Tn(3)}}; add(suite, s, b, flavour); }
         // readers that run concurrently under the shared lock and use the SAME const key object (wildcard and regex levels)
         { Spec s; s.check = false; s.initial = {0, 1}; s.threads = T{{N(1)}, {N(1)}, {E(1)}}; add(suite, s, b, flavour); }
         { Spec s; s.check = false; s.initial = {1, 2}; s.threads = T{{N(4)}, {E(4)}, {N(4), D()}}; add(suite, s, b, flavour); }
@@ -256,6 +279,10 @@ bool provider(const std::string &prop, const std::string &tier, const std::strin
     { Spec s; s.initial = {0, 1}; s.threads = T{{U(0), H(2), E(0)}, {N(2)}}; add(suite, s, 3, flavour); }
     { Spec s; s.initial = {0, 0}; s.threads = T{{S(0), U(1)}, {N(0)}, {N(1)}}; add(suite, s, 2, flavour); }
     { Spec s; s.initial = {0}; s.dead = {1, 2}; s.threads = T{{H(2), S(1)}, {N(1), E(4)}, {D()}}; add(suite, s, 2, flavour); }
+    // an observer that throws: the exception passes through notify() to the caller, which carries on with other operations; the router must be as atomic afterwards as before
+    { Spec s; s.initial = {0}; s.thrower = 2; s.threads = T{{Tn(3), U(0)}, {N(1)}}; add(suite, s, 3, flavour); }
+    { Spec s; s.initial = {0, 1}; s.thrower = 2; s.threads = T{{Tn(3), S(0)}, {N(1)}, {Tn(3)}}; add(suite, s, 2, flavour); }
+    { Spec s; s.initial = {0}; s.thrower = 2; s.threads = T{{Tn(3), H(2)}, {N(0), E(3)}}; add(suite, s, b, flavour); }
     if (thorough) {
         { Spec s; s.initial = {0, 1}; s.threads = T{{S(0)}, {N(1)}, {N(2)}, {U(1)}, {H(2)}}; add(suite, s, 2, flavour); }
         { Spec s; s.initial = {0}; s.threads = T{{S(1), U(0)}, {N(1), N(1)}, {H(2), D()}}; add(suite, s, 2, flavour); }
